@@ -39,8 +39,10 @@ instance : BEq Val := ⟨beq⟩
 
 /-- `utilities.is_primitive` as far as the modelled value shapes go -/
 def isPrimitive : Val → Bool
-| .obj _ => false
-| _ => true
+| .int _ => true
+| .bool _ => true
+| .str _ => true
+| _ => false
 
 def lookupField (a : String) : List (String × Val) → Option Val
 | [] => none
